@@ -159,7 +159,7 @@ fn arguments() {
     valid("{ dog { isHousetrained(atOtherHomes: true) @include(if: true) } }");
     invalid("{ dog { doesKnowCommand(command: CLEAN_UP_HOUSE) } }", Rule::KnownArgumentNames);
     only("{ dog { doesKnowCommand(command: CLEAN_UP_HOUSE, dogCommand: SIT) } }", Rule::KnownArgumentNames);
-    only("{ dog { isHousetrained(atOtherHomes: true) @include(unless: false) } }", Rule::KnownArgumentNames);
+    invalid("{ dog { isHousetrained(atOtherHomes: true) @include(unless: false) } }", Rule::KnownArgumentNames);
     valid("{ arguments { multipleReqs(x: 1, y: 2) } }");
     valid("{ arguments { multipleReqs(y: 1, x: 2) } }");
     invalid("{ arguments { booleanArgField(booleanArg: true, booleanArg: false) } }", Rule::UniqueArgumentNames);
